@@ -30,33 +30,33 @@ BUILT.update({
 BUILT["C06"] = ("Lean 4 layout theorems (little-endian fields, header 64 / entry 288 with field offsets, reserved zeros, string and track layout, EMG bias, Tdf.new image) with the Lean encoders/decoders as the independent layout-driven codec; two-way inverse from C01+C12+C02; + byte-equality correspondence both directions incl. the BTS capture",
             "The model's encoders are the independent encoder of the property; theorems pin the layout for all values; real _write output is compared byte for byte, real decoders run on model-encoded bytes, entries/headers/Tdf.new likewise, and the capture (8 blocks, pinned sha-256) is decoded by both and compared in full.",
             NOTE + " The capture checks are tests on one input.", "DESIGN.md §6 C06")
-BUILT["C08"] = ("Lean 4 theorems on the access-mode state machine (allow_write/enter/exit/mutators/readers incl. implicit contexts): disk changes only through a mutator with a writable handle, such a handle only comes from enter-after-allow_write, every other mode refuses, readers pure, implicit handles closed, any_exit_ends_write_access for every trace incl. nested contexts; + exhaustive mutator/reader x mode matrix and seeded interleavings on the real object",
+BUILT["C08"] = ("Lean 4 theorems on the access-mode state machine (allow_write/enter/exit/mutators/readers incl. implicit contexts): disk changes only through a mutator with a writable handle, such a handle only comes from enter-after-allow_write, every other mode refuses, readers pure, implicit handles closed, any_exit_ends_write_access for every trace incl. nested contexts, copy_not_write_enabled; + exhaustive mutator/reader x mode matrix and seeded interleavings on the real object",
             "Proof over the model for every state and trace; the real Tdf object is driven through the full matrix (8 mutators + 22 readers x 11 modes, four of them nested `with` on one object) and seeded interleavings, observing raised?/bytes changed?/handler.closed, judged by the model and by an independent python reference monitor.",
             NOTE + " Which of decorator/PermissionError/closed handle/read-only handle refuses a call is not modelled, only that it raises;", "DESIGN.md §6 C08")
 BUILT["C17"] = ("Lean 4 theorems on a finite-map file system model of Tdf.new / copy / open (new image well-formed, existing targets refused and untouched, copy identical and independent, missing / bad-signature open refused; long-lived objects: every context entry judges the file as it is now, enter_checks_every_time over any history of replacements) + all target kinds and scripted long-lived-object scenarios on the real file system",
             "Proof over the model for every file system and path; the real functions are run on every target kind (absent, TDF, non-TDF, empty, directory), with sources reached by histories and later mutations of copy/original; bytes before/after and exception classes compared, new files judged by Lean's wfB/compactB.",
             NOTE + " The exists()/open race is OS behaviour and not modelled.", "DESIGN.md §6 C17")
-BUILT["C15"] = ("Lean 4 invariant proof (lists aligned, channels Nodup) preserved by every edit of the three channel-mapped block kinds and every history; survivors keep their channel (removal erases one pair), add appends a pair, taken explicit channel refused, automatic channel fresh; + seeded edit histories on real blocks from empty / constructor-filled / decoded starts",
+BUILT["C15"] = ("Lean 4 invariant proof (lists aligned, channels Nodup) preserved by every edit of the three channel-mapped block kinds and every history; survivors keep their channel (removal erases one pair), add appends a pair, taken explicit channel refused, automatic channel fresh; + seeded edit histories on real blocks from empty / constructor-filled / decoded starts (incl. lists edited by the caller afterwards and items shared with another block)",
             "Proof over the model for every edit sequence; real EMG, platform-calibration and platform-data blocks are driven through seeded histories and compared pairwise with the model after every edit, then encoded and decoded.",
             NOTE + " Channels (incl. automatic max+1) are kept inside the on-disk range by the generator.", "DESIGN.md §6 C15")
-BUILT["C16"] = ("Lean 4 invariant (every held track has the block's frame count) preserved by every add/assign history; refused add unchanged; assign_all_or_nothing as an equation (installs exactly the list iff every element is acceptable and the iterable does not raise); + seeded call sequences on real Data3D / ForceTorque3D / EMG blocks",
+BUILT["C16"] = ("Lean 4 invariant (every held track has the block's frame count) preserved by every add/assign history; refused add unchanged; assign_all_or_nothing as an equation (installs exactly the list iff every element is acceptable and the iterable does not raise); + seeded call sequences on real Data3D / ForceTorque3D / EMG blocks (wrong lengths, foreign objects, raising and non-raising one-shot iterables, lists the caller edits afterwards)",
             "Proof over the model for all call sequences; real blocks are driven with wrong-length tracks, foreign objects at every list position, raising generators and non-iterables, comparing the identity of the held tracks after every call.",
             NOTE, "DESIGN.md §6 C16")
 BUILT["C18"] = ("Lean 4 lemmas on one labelled list: index = iteration (incl. negative indices), label lookup returns the first match, contains <-> lookup succeeds, KeyError/IndexError/TypeError cases, membership for every kind of key (memberOf); + real blocks of four kinds x all key kinds incl. exotic labels and keys that a sloppy comparison would identify with a present label",
             "Proof over the model for every list and key; four real block kinds with duplicate/empty/near-equal labels are probed with every integer in range and beyond, labels, items and foreign key types; identity of results, exception classes and unchanged encoding compared.",
             NOTE, "DESIGN.md §6 C18")
-BUILT["C19"] = ("Lean 4 decision-logic theorems (accept <-> exactly the required shape; viewport halves: 2-element array/list/tuple; viewport parameter; coupled arrays (n,3); event refusals; accepted => encoded length = field width; constructors with several geometry arguments accept iff EACH argument fits: all_iff_each) + exhaustive enumeration of shapes rank 0-3 / extents 0-4 x dtypes and non-arrays against all 25 validated constructor arguments, plus related pairs of wrong arguments for the multi-argument constructors",
+BUILT["C19"] = ("Lean 4 decision-logic theorems (accept <-> exactly the required shape; viewport halves: 2-element array/list/tuple; viewport parameter; coupled arrays (n,3); event refusals; accepted => encoded length = field width; constructors with several geometry arguments accept iff EACH argument fits: all_iff_each) + exhaustive enumeration of shapes rank 0-3 / extents 0-4 x dtypes and non-arrays against all 25 validated constructor arguments, plus related pairs of wrong arguments for the multi-argument constructors; the event sentences judged directly",
             "Proof over the model for all argument kinds and shapes; the real constructors are enumerated exhaustively over the finite shape space the property names, comparing accept/refuse with the model and checking nBytes = bytes written for every accepted object.",
             NOTE + " Acceptance is modelled as a function of kind and shape only.", "DESIGN.md §6 C19")
 BUILT["C20"] = ("Lean 4 separation theorems on an object-store model (fresh allocation by every constructor/decode call, edits touch one cell only, instance_independent over any interleaving, a block built without items is empty whatever happened before, decode twice = two independent instances, list assignment installs items in a container of the instance's own: assign_separate) + seeded interleavings over 2-4 real instances of seven block classes",
             "Proof over the store model; real instances are created (with/without own item lists), decoded twice, edited and encoded in seeded interleavings, and after every step the items (by identity) and encoding of every instance are compared with the model.",
             NOTE + " This property is about CPython object identity; the store model is only as good as the correspondence.", "DESIGN.md §6 C20")
-BUILT["C14"] = ("Lean 4 theorems eq a b = true <-> a = b for the nine block equalities as implemented (byte-level ones via injectivity of enc from C01; field-wise ones via zipAll + length/channel-map guards), eq with decode(encode a), append detected, file equality; + real == on generated pairs (same / rebuilt / round-tripped / one change / +-1 item) and on pairs of files",
+BUILT["C14"] = ("Lean 4 theorems eq a b = true <-> a = b for the nine block equalities as implemented (byte-level ones via injectivity of enc from C01; field-wise ones via zipAll + length/channel-map guards), eq with decode(encode a), append detected, file equality; + real == on generated pairs (same / rebuilt / round-tripped / one change / +-1 item / compared, then edited in place) and on pairs of files",
             "Proof over the model (samples and scalars as bit patterns); the real __eq__ of every block class and of Tdf is evaluated in both directions on pairs that are identical, round-tripped or differ in exactly one element, and compared with the model and with equality of the abstract contents.",
             NOTE + " numpy's allclose tolerance and ±0/NaN scalar corner cases are outside the model; unequal pairs differ far beyond tolerance.", "DESIGN.md §6 C14")
 CONT = "Lean 4 refinement proof: byte-level L0 model of add/remove/replace/setters (seek/write/truncate) simulates the list-of-blocks spec on every well-formed layout (add_sim, remove_sim, run_sim by induction over histories, any table length); "
 BUILT.update({
-    "C03": (CONT + "corollary wfB(image)=true; + seeded history correspondence with Lean's wfB judging the real bytes after every call",
+    "C03": (CONT + "corollary wfB(image)=true; + seeded and exhaustive history correspondence (incl. one block object through its whole life in a file, a long-lived Tdf object pausing while other objects change the file, well-formed non-compact start files) with Lean's wfB judging the real bytes after every call",
             "Proof over the model for every finite history from every compact start state and every table length; tied to /repo by running seeded histories on real files and on the model, comparing the file abstraction and Tdf.entries after every call; Lean's decidable WF predicate judges the real bytes.",
             NOTE + " Start states are compact files; blocks are assumed to satisfy C02 (honest sizes); files stay below 2 GiB.", "DESIGN.md §6 container"),
     "C04": (CONT + "frame theorems on the list spec (other types untouched, removed absent, replace keeps comment) and payload_read; + reference-dict oracle on real files, incl. block objects handed over again after in-place edits",
